@@ -3,7 +3,7 @@
     by the backend, class of the reply, user row the session is bound to,
     bytes written by the SASL service), plus the decidable finding classes. *)
 From Coq Require Import String Ascii List Bool Arith NArith ZArith.
-From Raven Require Import Base.GoStr Base.GoStrB64 Base.GoStrJson Spec.Json Model.Auth.
+From Raven Require Import Base.GoStr Base.GoStrB64 Base.GoStrJson Spec.Json Model.CmdTokenizer Model.Auth Spec.CmdArgs.
 Import ListNotations.
 Local Open Scope char_scope.
 
@@ -68,9 +68,8 @@ Definition ensure_sound (ens : ensure_fn) : Prop :=
 Definition ensure_ok : ensure_fn := fun l dm => Some (l, dm).
 Definition ensure_fails : ensure_fn := fun _ _ => None.
 
-(** ---- finding classes (behaviour of raven that violates the property) ---- *)
-Inductive finding :=
-| F_login_tokens.          (* LOGIN argument that is not one blank-free token *)
+(** no finding class is left for C04 (json_meta, multi_at, sasl_reply_injection,
+    login_tokens were repaired in raven) *)
 
 (** stated domain limit: JSON carries Unicode text; encoding/json replaces
     octets that are not valid UTF-8 by U+FFFD, so exactness of the request
@@ -78,26 +77,10 @@ Inductive finding :=
 Definition in_domain (d u p : str) : bool := utf8_valid (address_of d u) && utf8_valid p.
 
 (** ---- IMAP LOGIN: what the client supplied ---- *)
-Inductive astring_form := Atom | Quoted.
-
-(** RFC 3501 quoted string: backslash-escape of backslash and double quote *)
-Definition imap_quote (s : str) : str :=
-  DQ :: flat_map (fun c => if Ascii.eqb c DQ || Ascii.eqb c BSL then [BSL; c] else [c]) s ++ [DQ].
-
-Definition render (f : astring_form) (s : str) : str :=
-  match f with Atom => s | Quoted => imap_quote s end.
-
-(** octets that need neither escaping nor quoting and are not split on *)
-Definition token_c (c : ascii) : bool :=
-  negb (is_space c) && negb (Ascii.eqb c DQ) && negb (Ascii.eqb c BSL) && (byte_of c <? 128)%N.
-Definition token (s : str) : bool := forallb token_c s.
-
-Definition classify_login (fu fp : astring_form) (u p : str) : option finding :=
-  let ok f s := token s && match f with Atom => negb (is_nil s) | Quoted => true end in
-  if ok fu u && ok fp p then None else Some F_login_tokens.
-
-Definition login_line (tag : str) (fu fp : astring_form) (u p : str) : str :=
-  tag ++ S_ " LOGIN " ++ render fu u ++ S_ " " ++ render fp p ++ crlf.
+(** tag LOGIN userid password CRLF, each argument written as an atom or as a
+    quoted string (Spec/CmdArgs.v) *)
+Definition login_line (tag : str) (fu fp : arg_form) (u p : str) : str :=
+  render_line [(AtomForm, tag); (AtomForm, S_ "LOGIN"); (fu, u); (fp, p)] ++ crlf.
 
 (** ---- SASL ---- *)
 Definition S_AUTH : str := S_ "AUTH".
